@@ -805,12 +805,12 @@ class SamplingMethod(DirectMethod):
         subst_from = []
         subst_to = []
         for offset in offsets.keys():
-            if k==-1 and offset>0:
-                raise IndexError()
-            if k+offset<0:
+            # k==-1 denotes the final node N: prev/negative offsets stay inside the horizon there
+            k_abs = self.N if k==-1 else k
+            if k_abs+offset<0 or k_abs+offset>self.N:
                 raise IndexError()
             subst_from.append(vvcat(symbols[offset]))
-            subst_to.append(self._eval_at_control(stage, vvcat(offsets[offset]), k+offset))
+            subst_to.append(self._eval_at_control(stage, vvcat(offsets[offset]), k_abs+offset))
             #print(expr, subst_from, subst_to)
 
 
